@@ -124,15 +124,20 @@ func (i *Indexer) Notify(_ context.Context, blk *chain.ExecutedBlock) error {
 // cache.
 // assumes the write lock is held
 func (i *Indexer) insertBlockIntoCache(blk *chain.ExecutedBlock) {
+	if i.lastHeight != math.MaxUint64 && blk.Block.Hght != i.lastHeight+1 && blk.Block.Hght >= i.blockWindow {
+		// Heights were skipped (e.g. after state sync), so more than one cached
+		// block may have fallen out of the window ending at the new height.
+		for height, cachedBlk := range i.blockHeightToBlock {
+			if height <= blk.Block.Hght-i.blockWindow {
+				delete(i.blockHeightToBlock, height)
+				i.evictBlockRefs(cachedBlk)
+			}
+		}
+	}
 	if evictedBlk, ok := i.blockHeightToBlock[blk.Block.Hght-i.blockWindow]; ok {
 		// remove the block from the caches
-		delete(i.blockIDToHeight, evictedBlk.Block.GetID())
 		delete(i.blockHeightToBlock, evictedBlk.Block.GetHeight())
-
-		// remove the transactions from the cache.
-		for _, tx := range evictedBlk.Block.Txs {
-			delete(i.txCache, tx.GetID())
-		}
+		i.evictBlockRefs(evictedBlk)
 	}
 
 	i.blockIDToHeight[blk.Block.GetID()] = blk.Block.Hght
@@ -145,6 +150,16 @@ func (i *Indexer) insertBlockIntoCache(blk *chain.ExecutedBlock) {
 		}
 	}
 	i.lastHeight = blk.Block.Hght
+}
+
+// evictBlockRefs removes the ID and transaction cache entries of a block that
+// left the block cache.
+// assumes the write lock is held
+func (i *Indexer) evictBlockRefs(blk *chain.ExecutedBlock) {
+	delete(i.blockIDToHeight, blk.Block.GetID())
+	for _, tx := range blk.Block.Txs {
+		delete(i.txCache, tx.GetID())
+	}
 }
 
 // storeBlock persist the given block to the database, and deletes a block
